@@ -111,3 +111,25 @@ Definition elementwise_step (st : step) : bool :=
   | _ => false
   end.
 Definition has_barrier (steps : list step) : bool := negb (forallb elementwise_step steps).
+
+(* element types line up for the steps whose operators are built for a fixed element type
+   (what rustc checks); the other steps are generic in the element type *)
+Definition step_type (t : tag) (st : step) : option tag :=
+  match st with
+  | SMap _ | SUnkey => Some TU
+  | SFilter _ | SMapBatches _ _ => Some t
+  | SFlatMap _ => Some (if Nat.eqb t TKG then TKV else t)
+  | SKeyBy _ => Some TKV
+  | SMapValues _ | SFilterValues _ | SMapValuesBatches _ _ =>
+      if Nat.eqb t TKV then Some TKV else None
+  | SMapValuesW _ => if Nat.eqb t TKV then Some TKW else None
+  | SFilterValuesW _ => if Nat.eqb t TKW then Some TKW else None
+  | SMapValuesBack _ => if Nat.eqb t TKW then Some TKV else None
+  | SGroupValuesToList => if Nat.eqb t TKG then Some TKV else None
+  | _ => None   (* barrier steps: not part of the element-wise fragment *)
+  end.
+Fixpoint well_typed (t : tag) (steps : list step) : bool :=
+  match steps with
+  | [] => true
+  | st :: r => match step_type t st with Some t' => well_typed t' r | None => false end
+  end.
